@@ -168,7 +168,7 @@ pub fn run(b: &mut Built, op: &Op, pfx: &str, env: Envelope) -> StepOut {
             let u = input("uns", true);
             // chain fact: nobody can send more LST than exists outside the contract
             if *funds == Funds::Lst {
-                symcore::assume(t::le(&t::add(&t::ut(u), &b.chain.bal(&who.contract, &lst)), &b.chain.supply_of(&lst)));
+                symcore::assume(t::le(&t::add(&t::ut(u), &scen::lst_held(&b.chain)), &b.chain.supply_of(&lst)));
             }
             let s = who_addr(&who, sender);
             b.chain.execute(&s, &funds_coin(&who, funds, u), ExecuteMsg::LiquidUnstake {})
@@ -183,6 +183,11 @@ pub fn run(b: &mut Built, op: &Op, pfx: &str, env: Envelope) -> StepOut {
         }
         Op::Rewards { sender, funds, faults } => {
             let x = input("rew", true);
+            if env == Envelope::C16 {
+                // C16's envelope speaks about the exchange rates of the execution: the rate after the
+                // reward must stay within [10^-3, 10^3] as well
+                symcore::assume(t::le(&t::add(&pre.n, &t::ut(x)), &t::mul("1000", &pre.l)));
+            }
             b.chain.fail_submit = faults.clone();
             let s = who_addr(&who, sender);
             b.chain.execute(&s, &funds_coin(&who, funds, x), ExecuteMsg::ReceiveRewards {})
@@ -233,7 +238,12 @@ pub fn run(b: &mut Built, op: &Op, pfx: &str, env: Envelope) -> StepOut {
                 let st = staking::state::STATE.load(&b.chain.deps.storage).unwrap();
                 (st.total_native_token, st.total_liquid_stake_token, st.total_reward_amount)
             } else {
-                (input("rn", true), input("rl", true), input("rr", true))
+                let (n, l, r) = (input("rn", true), input("rl", true), input("rr", true));
+                if env == Envelope::C16 {
+                    let (nt, lt) = (t::ut(n), t::ut(l));
+                    symcore::assume(t::implies(&t::gt(&lt, "0"), &t::and(&[t::le(&nt, &t::mul("1000", &lt)), t::le(&lt, &t::mul("1000", &nt))])));
+                }
+                (n, l, r)
             };
             b.chain.execute(&s, &[], ExecuteMsg::ResumeContract { total_native_token: n, total_liquid_stake_token: l, total_reward_amount: r })
         }
@@ -245,7 +255,7 @@ pub fn run(b: &mut Built, op: &Op, pfx: &str, env: Envelope) -> StepOut {
                 _ => addr::OTHER_DENOM.to_string(),
             };
             if *denom == Funds::Lst {
-                symcore::assume(t::le(&t::add(&t::ut(d), &b.chain.bal(&who.contract, &lst)), &b.chain.supply_of(&lst)));
+                symcore::assume(t::le(&t::add(&t::ut(d), &scen::lst_held(&b.chain)), &b.chain.supply_of(&lst)));
             }
             b.chain.donate(&who.u3.clone(), &dn, &t::ut(d));
             match denom {
@@ -538,6 +548,8 @@ pub fn post_op(cx: &Ctx, b: &Built, op: &Op, s: &StepOut) {
     // C16
     if let Tx::Panic(p) = &s.tx {
         prove(f, &format!("C16:no panic [{}]", panic_key(p)), "false".into());
+    } else {
+        claim(f, "C16:entry point returned a result or a typed error", true);
     }
     // C02 / C03: the chain never has to reject a message of an entitled operation for lack of funds
     if let Tx::Reject(why) = &s.tx {
